@@ -386,10 +386,42 @@ func (w *World) StartAgent() error {
 		go w.serveNotify()
 	}
 
+	// (the whole start is repeated when the agent turns out to have lost its HTTP port to a parallel run: see below)
+	for startTry := 0; ; startTry++ {
+		retry, err := w.startOnce()
+		if err == nil {
+			break
+		}
+
+		if !retry || startTry >= 4 {
+			return err
+		}
+	}
+
+	w.dpIdle(5*time.Millisecond, 2*time.Second)
+
+	ev := map[string]interface{}{"ev": "start", "cfg": w.cfgJSON()}
+	w.dpObs(ev)
+
+	if w.P4 != nil {
+		ev["cfg"].(map[string]interface{})["p4info"] = InfoJSON(w.P4.Info)
+		ev["snap"] = w.snapJSON()
+	}
+
+	w.emit(ev)
+
+	return nil
+}
+
+// startOnce launches the agent and waits until it answers on N4 AND has bound its HTTP port. retry = the agent died because
+// that port was taken in the meantime (a start-up failure of the harness' making, not an observation): start again.
+func (w *World) startOnce() (retry bool, err error) {
 	w.Agent, err = agent.Start(w.AgentBin, w.Dir, w.Cfg)
 	if err != nil {
-		return err
+		return false, err
 	}
+
+	httpLost := func() bool { return !w.Agent.Alive() && strings.Contains(w.Agent.Stderr(), "http server failed") }
 
 	// an agent that could not bind its HTTP port (taken by a parallel run in the meantime) is started again on
 	// another port: a start-up failure of the harness' making, not an observation
@@ -402,7 +434,7 @@ func (w *World) StartAgent() error {
 
 		w.Agent, err = agent.Start(w.AgentBin, w.Dir, w.Cfg)
 		if err != nil {
-			return err
+			return false, err
 		}
 	}
 
@@ -424,7 +456,7 @@ func (w *World) StartAgent() error {
 	// ready = a heartbeat on a throw-away socket is answered
 	probe, err := pfcpx.NewPeer("probe", "127.0.0.1:0", w.Cfg.N4Addr+":8805", "127.0.0.1")
 	if err != nil {
-		return err
+		return false, err
 	}
 	defer probe.Close()
 
@@ -439,8 +471,23 @@ func (w *World) StartAgent() error {
 		}
 	}
 
+	// ... and the HTTP server is up (it is started after N4: an agent that answers heartbeats can still lose its HTTP port)
+	for i := 0; ready && i < 500 && w.Agent.Alive(); i++ {
+		c, derr := net.DialTimeout("tcp", fmt.Sprintf("127.0.0.1:%d", w.Agent.HTTPPort), 50*time.Millisecond)
+		if derr == nil {
+			c.Close()
+			break
+		}
+
+		time.Sleep(2 * time.Millisecond)
+	}
+
+	if httpLost() {
+		return true, fmt.Errorf("the agent lost its HTTP port to a parallel run: %s", tailStr(w.Agent.Stderr(), 300))
+	}
+
 	if !ready {
-		return fmt.Errorf("agent did not become ready (alive=%v): %s", w.Agent.Alive(), tailStr(w.Agent.Stderr(), 600))
+		return false, fmt.Errorf("agent did not become ready (alive=%v): %s", w.Agent.Alive(), tailStr(w.Agent.Stderr(), 600))
 	}
 
 	// the probe's connection object must not stay behind (datapath reports are routed to "the" association)
@@ -470,19 +517,7 @@ func (w *World) StartAgent() error {
 		}
 	}
 
-	w.dpIdle(5*time.Millisecond, 2*time.Second)
-
-	ev := map[string]interface{}{"ev": "start", "cfg": w.cfgJSON()}
-	w.dpObs(ev)
-
-	if w.P4 != nil {
-		ev["cfg"].(map[string]interface{})["p4info"] = InfoJSON(w.P4.Info)
-		ev["snap"] = w.snapJSON()
-	}
-
-	w.emit(ev)
-
-	return nil
+	return false, nil
 }
 
 // KillAgent sends SIGKILL and records the event.
